@@ -18,7 +18,20 @@
       - [has_regex_chars v = false] is weaker than "no [is_meta] character in
         [v]": it lets ')' ']' '}' and (for host-name like texts) '.' pass.
         [parse_literal] therefore needs the stronger hypothesis; the witnesses
-        [hostdot_not_literal] / [paren_not_literal] show the difference is real. *)
+        [hostdot_not_literal] / [paren_not_literal] show the difference is real.
+
+    Divergences between [re_compile] and Go's regexp.Compile found by probing
+    go1.23 while writing this file (NOT fixed here, Regex.v is not mine; none of
+    them touches the theorems below, which are about the matcher and about
+    plain texts):
+      - "(?i)a", "(?P<n>a)", "(?s:.)", "x(?i)y": Go compiles them, the model
+        answers CInvalid (parse_cat only knows "(?:"; any other "(?" should be
+        CUnsupported).
+      - "^*", "^*a", "^+": Go compiles them (repetition of an empty-width
+        assertion), the model answers CInvalid.
+      - "[[:alpha:]]": Go reads a POSIX class (matches "a", not ":]"), the
+        model silently reads the class {[ : a l p h} followed by a literal ']'
+        (matches ":]", not "a"); "[:" inside a class should be CUnsupported. *)
 From Coq Require Import Setoid.
 From LMD Require Import QE.Value QE.Regex QE.Parse.
 Open Scope N_scope.
@@ -195,7 +208,7 @@ Section Correct.
   Proof.
     unfold any_star. cbn [denote]. split.
     - intros [y [z [Hx [_ Hr]]]]. exists y, z. split; assumption.
-    - intros [y [z [Hx Hr]]]. exists y, z. split; [exact Hx|]. split; [apply star_any|exact Hr].
+    - intros [y [z [Hx Hr]]]. exists y, z. split; [exact Hx|]. split; [apply (star_any ci)|exact Hr].
   Qed.
 
   Lemma suf_any r x :
@@ -203,7 +216,7 @@ Section Correct.
   Proof.
     unfold any_star. cbn [denote]. split.
     - intros [y [z [Hx [Hr _]]]]. exists y, z. split; assumption.
-    - intros [y [z [Hx Hr]]]. exists y, z. split; [exact Hx|]. split; [exact Hr|apply star_any].
+    - intros [y [z [Hx Hr]]]. exists y, z. split; [exact Hx|]. split; [exact Hr|apply (star_any ci)].
   Qed.
 End Correct.
 
@@ -297,7 +310,7 @@ Proof.
     + intros H. exists x, []. rewrite app_nil_r. split; [reflexivity|]. split; [exact H|exact I].
     + intros [y [z [Hx [Ha Hz]]]]. destruct z as [|c z]; [|contradiction Hz].
       rewrite app_nil_r in Hx. subst x. exact Ha.
-  - rewrite IH. unfold lit_step at 2. cbn [denote]. split.
+  - rewrite IH. unfold lit_step. cbn [denote]. split.
     + intros [y [z [Hx [[y1 [y2 [Hy [Ha [c [Hy2 Hc]]]]]] Hz]]]].
       exists y1, (c :: z). subst y2 y x.
       split; [rewrite <- app_assoc; reflexivity|]. split; [exact Ha|]. split; assumption.
@@ -416,6 +429,7 @@ Lemma re_compile_unfold ci text :
   re_compile ci text =
   let '(st, body) := head_split text in
   let '(en, body) := if ends_with_dollar body then (true, removelast body) else (false, body) in
+  if st && match body with 42 :: _ | 43 :: _ | 63 :: _ => true | _ => false end then CUnsupported else
   match parse_alt ((S (S (length body))) * 4)%nat body with
   | POk r [] => CPat (mkPat ci st en r)
   | POk _ (41 :: _) => CInvalid
@@ -449,7 +463,7 @@ Theorem parse_literal ci v :
 Proof.
   intros Hv. rewrite re_compile_unfold, (head_split_plain v Hv).
   cbv beta iota zeta. rewrite (ends_with_dollar_plain v Hv).
-  cbv beta iota zeta. rewrite (parse_alt_plain v _ Hv) by lia.
+  cbv beta iota zeta. cbn [andb]. rewrite (parse_alt_plain v _ Hv) by lia.
   reflexivity.
 Qed.
 
